@@ -1102,19 +1102,19 @@ def cross_recipes(tier):
 
 # ====================================================================== registration
 SUBS = [
-    Sub(name="classic_gaussian", check=check_classic_gauss, strategy=gauss_recipes, quick=1200, thorough=40000,
+    Sub(name="classic_gaussian", check=check_classic_gauss, strategy=gauss_recipes, quick=1600, thorough=40000,
         shards=4,
         rule="non-trivial = >= 2 samples, at least one ignored (NaN or exactly zero) and one used data-residual entry"),
-    Sub(name="classic_likelihoods", check=check_classic_other, strategy=other_recipes, quick=600, thorough=20000,
+    Sub(name="classic_likelihoods", check=check_classic_other, strategy=other_recipes, quick=800, thorough=20000,
         shards=2,
         rule="non-trivial = >= 2 samples, at least one ignored and one used data-residual entry "
              "(Poissonian / Bernoulli / Student-t / variable-covariance Gaussian)"),
-    Sub(name="jax_trees", check=check_jax_trees, strategy=jax_tree_recipes, quick=160, thorough=6000, shards=4,
-        jax=True, rule="non-trivial = >= 2 samples and (>= 2 output leaves or a complex leaf)"),
-    Sub(name="jax_likelihoods", check=check_jax_lh, strategy=jax_lh_recipes, quick=90, thorough=3000, shards=3,
-        jax=True, rule="non-trivial = >= 2 samples pushed through normalized_residual of a generated likelihood"),
-    Sub(name="cross_classic_jax", check=check_cross, strategy=cross_recipes, quick=105, thorough=4000, shards=3,
-        jax=True,
+    Sub(name="jax_trees", check=check_jax_trees, strategy=jax_tree_recipes, quick=200, thorough=6000, shards=4,
+        jax=True, budget_quick=120.0, rule="non-trivial = >= 2 samples and (>= 2 output leaves or a complex leaf)"),
+    Sub(name="jax_likelihoods", check=check_jax_lh, strategy=jax_lh_recipes, quick=120, thorough=3000, shards=3,
+        jax=True, budget_quick=120.0, rule="non-trivial = >= 2 samples pushed through normalized_residual of a generated likelihood"),
+    Sub(name="cross_classic_jax", check=check_cross, strategy=cross_recipes, quick=135, thorough=4000, shards=3,
+        jax=True, budget_quick=120.0,
         rule="non-trivial = >= 2 samples and (a key with a constant non-zero number of ignored entries or a "
              "complex key), so that a documented conversion is exercised"),
 ]
